@@ -564,7 +564,7 @@ impl RdfPlanner {
         let join_condition: Option<Box<dyn JoinCondition>> = if shared_vars.is_empty() {
             None
         } else {
-            Some(Box::new(RdfJoinCondition::new(shared_vars)))
+            Some(Box::new(RdfJoinCondition::new(shared_vars.clone())))
         };
 
         let join_op = Box::new(NestedLoopJoinOperator::new(
@@ -575,15 +575,29 @@ impl RdfPlanner {
             full_schema,
         ));
 
-        // If we have duplicate columns to remove, wrap with projection
+        // If we have duplicate columns to remove, merge them: a shared variable takes the
+        // binding of whichever side binds it
         if projection_indices.len() < full_columns.len() {
-            let output_schema = derive_rdf_schema(&output_columns);
-            let project_op = Box::new(ProjectOperator::select_columns(
-                join_op,
-                projection_indices,
-                output_schema,
-            ));
-            Ok((project_op, output_columns))
+            let sources = projection_indices
+                .iter()
+                .map(|&idx| {
+                    let mut from = vec![idx];
+                    if idx < left_col_count {
+                        from.extend(
+                            shared_vars
+                                .iter()
+                                .filter(|(l, _)| *l == idx)
+                                .map(|(_, r)| left_col_count + r),
+                        );
+                    }
+                    from
+                })
+                .collect();
+            let merge_op = Box::new(RdfMergeOperator {
+                child: join_op,
+                sources,
+            });
+            Ok((merge_op, output_columns))
         } else {
             Ok((join_op, output_columns))
         }
@@ -624,7 +638,7 @@ impl RdfPlanner {
         let join_condition: Option<Box<dyn JoinCondition>> = if shared_vars.is_empty() {
             None
         } else {
-            Some(Box::new(RdfJoinCondition::new(shared_vars)))
+            Some(Box::new(RdfJoinCondition::new(shared_vars.clone())))
         };
 
         let join_op = Box::new(NestedLoopJoinOperator::new(
@@ -635,15 +649,29 @@ impl RdfPlanner {
             full_schema,
         ));
 
-        // If we have duplicate columns to remove, wrap with projection
+        // If we have duplicate columns to remove, merge them: a shared variable takes the
+        // binding of whichever side binds it
         if projection_indices.len() < full_columns.len() {
-            let output_schema = derive_rdf_schema(&output_columns);
-            let project_op = Box::new(ProjectOperator::select_columns(
-                join_op,
-                projection_indices,
-                output_schema,
-            ));
-            Ok((project_op, output_columns))
+            let sources = projection_indices
+                .iter()
+                .map(|&idx| {
+                    let mut from = vec![idx];
+                    if idx < left_col_count {
+                        from.extend(
+                            shared_vars
+                                .iter()
+                                .filter(|(l, _)| *l == idx)
+                                .map(|(_, r)| left_col_count + r),
+                        );
+                    }
+                    from
+                })
+                .collect();
+            let merge_op = Box::new(RdfMergeOperator {
+                child: join_op,
+                sources,
+            });
+            Ok((merge_op, output_columns))
         } else {
             Ok((join_op, output_columns))
         }
@@ -1618,6 +1646,53 @@ impl Operator for RdfUnionOperator {
 }
 
 // ============================================================================
+// RDF Merge Operator (shared variables of a join)
+// ============================================================================
+
+/// Produces the merged solution of a join: for each output column the first bound (non-NULL)
+/// value among its source columns. A shared variable takes the left side's binding, or the right
+/// side's when the left side left it unbound.
+struct RdfMergeOperator {
+    child: Box<dyn Operator>,
+    /// For each output column, the input columns it may come from, in order of preference.
+    sources: Vec<Vec<usize>>,
+}
+
+impl Operator for RdfMergeOperator {
+    fn next(&mut self) -> std::result::Result<Option<DataChunk>, OperatorError> {
+        let Some(input) = self.child.next()? else {
+            return Ok(None);
+        };
+        let schema = vec![LogicalType::Any; self.sources.len()];
+        let mut output = DataChunk::with_capacity(&schema, input.row_count());
+        let mut rows = 0;
+        for row in input.selected_indices() {
+            rows += 1;
+            for (out_idx, candidates) in self.sources.iter().enumerate() {
+                let value = candidates
+                    .iter()
+                    .filter_map(|&c| input.column(c).and_then(|col| col.get_value(row)))
+                    .find(|v| !matches!(v, Value::Null))
+                    .unwrap_or(Value::Null);
+                if let Some(col) = output.column_mut(out_idx) {
+                    col.push_value(value);
+                }
+            }
+        }
+        output.set_count(rows);
+        Ok(Some(output))
+    }
+
+    fn reset(&mut self) {
+        self.child.reset();
+    }
+
+    fn name(&self) -> &'static str {
+        "RdfMerge"
+    }
+}
+
+// ============================================================================
 // RDF Triple Scan Operator
 // ============================================================================
 
@@ -2447,13 +2522,14 @@ impl JoinCondition for RdfJoinCondition {
                 .and_then(|c| c.get_value(right_row));
 
             match (left_val, right_val) {
+                // A variable that one side leaves unbound (OPTIONAL, a UNION branch that does
+                // not mention it) is compatible with any binding of the other side
+                (Some(Value::Null), _) | (_, Some(Value::Null)) | (None, _) | (_, None) => {}
                 (Some(l), Some(r)) => {
                     if l != r {
                         return false;
                     }
                 }
-                // If either is null/missing, they don't match
-                _ => return false,
             }
         }
         true
